@@ -96,3 +96,20 @@ Theorem C14_api_common_token :
   forall c k m, j_entry c = EFilter k m -> k3 k -> size_ok c -> keys_ok c ->
   forall out, api_join c = Some out -> sound_spec c out = true /\ missing_spec c out = true /\ empty_spec c out = true.
 Proof. exact C14_filter_tables_sound. Qed.
+
+(* tie of the token order to the source: utils/token_ordering.py, as REGENERATED on this run,
+   computes exactly the ranks of Model/TokenOrdering.v that the theorems above are about *)
+From SSJ Require Import TokenOrderingGen OrderingGenFacts.
+Theorem token_order_of_source_is_model :
+  forall tables attr_list smt tokenize tk toks,
+  tokenizes tables attr_list tokenize tk ->
+  order_using_token_ordering (PList (map PInt toks))
+    (gen_token_ordering_for_tables (PList (map PList tables)) attr_list smt tokenize)
+  = PList (map PInt (order (tab_tokens tk 0 tables) toks)).
+Proof. exact order_using_gen_tables. Qed.
+Theorem pair_token_order_of_source_is_model :
+  forall lists toks,
+  order_using_token_ordering (PList (map PInt toks))
+    (gen_token_ordering_for_lists (PList (map (fun l => PList (map PInt l)) lists)))
+  = PList (map PInt (order (List.concat lists) toks)).
+Proof. exact order_using_gen_lists. Qed.
